@@ -12,7 +12,7 @@ EMPTY_ACK = 100000            # EMPTY_ACK_DELAY, us
 TYPES = ["CON", "NON", "ACK", "RST"]
 PATHS = ["fast", "slow", "fail", "missing", "suppress", "badreq", "rel", "unrel"]
 PATH_CTOR = {"fast": "HFast", "slow": "HSlow", "fail": "HFail", "missing": "HMissing", "suppress": "HSuppress",
-             "badreq": "HBadReq", "rel": "HRel", "unrel": "HUnrel"}
+             "badreq": "HBadReq", "rel": "HRel", "unrel": "HUnrel", "cached": "HCached"}
 
 # ---------------------------------------------------------------------------------------------- tiny independent codec
 def enc_opt(prev, num, val):
@@ -66,7 +66,8 @@ class World:
         class R(resource.Resource):
             def __init__(self, kind):
                 super().__init__(); self.kind = kind
-                # "cached": ONE response object built once and returned for every request (oracle-only stream, finding C04-R5-1)
+                # "cached": ONE response object built once and returned for every request (defect fixed in 75465d6: the remembered
+                # reply is a snapshot now; the stream goes through the model, which stores values)
                 self.cached = aiocoap.Message(code=aiocoap.CONTENT, payload=b"cached") if kind == "cached" else None
             async def needs_blockwise_assembly(self, request): return False
             async def handle(self, request):
@@ -389,14 +390,21 @@ def gen_race(rng):
 
 
 def gen_cached(rng):
-    """ORACLE-ONLY (no model term): the resource hands the SAME response object to every request (finding C04-R5-1)"""
+    """the resource hands the SAME response object to every request (CON requests answered at once; fixed defect of 75465d6):
+    several requests from 1-3 peers, same and different mids, copies of earlier ones after each later use of the object"""
     g = Gen(rng)
-    mid = rng.randrange(65536)
-    first = g.recv(0, "CON", mid, "01", "cached")
-    if rng.random() < 0.5: g.again(first)
-    g.recv(rng.choice([0, 1]), "CON", rng.choice([mid, mid + 1]), "02", "cached") if True else None
-    if g.ev[-1] == first: g.ev[-1][4] = (mid + 1) & 0xFFFF
-    g.again(first)
+    mid = rng.randrange(65536); reqs = []; keys = set()
+    for i in range(rng.randint(2, 5)):
+        r = rng.randrange(3); m = (mid + rng.choice([0, 0, 1, 2])) & 0xFFFF
+        if (r, m) in keys: continue
+        keys.add((r, m))
+        reqs.append(g.recv(r, "CON", m, "%02x" % (i + 1), "cached", None, g.payload()))
+        for _ in range(rng.choice([0, 1, 1, 2])): g.again(rng.choice(reqs))
+        if rng.random() < 0.3: g.recv(rng.randrange(3), "CON", rng.randrange(65536), g.token(), "fast")
+        if rng.random() < 0.2: g.adv(rng.choice([1, 100000, 5000000]))
+    for e in reqs: g.again(e)
+    if rng.random() < 0.5:
+        g.adv(LIFETIME - g.now - 1); g.again(rng.choice(reqs)); g.adv(rng.choice([1, 2])); g.again(reqs[0]); g.again(reqs[-1])
     return g.inp()
 
 
@@ -486,8 +494,7 @@ class C04(fw.Property):
                   "confirmable non-request. The model is tied to the code by running both on the same event scripts.")
     level_note = ("Hand-written model (no translated kernel): trusted through the correspondence streams only. Not modelled: multicast, shutdown, "
                   "outgoing client requests, observe, block-wise, non-default TransportTuning of incoming messages, continuation after an internal "
-                  "exception (KeyError/AssertionError branches are modelled as outputs and are unreachable in every run; no theorem excludes them), object "
-                  "identity of the handler's response (open finding: the remembered reply is the mutable object, not a snapshot). A peer that reuses a live "
+                  "exception (KeyError/AssertionError branches are modelled as outputs and are unreachable in every run; no theorem excludes them). A peer that reuses a live "
                   "message ID for a ping or an unmatched CON response makes the remembered reply an RST (C04_impolite_peer_gets_rst); "
                   "C04_dup_reply_is_ack carries that side condition explicitly.")
     rule = ("streams: scenario = one request (fast/slow/failing/missing/No-Response/forced CON or NON response; CON or NON) followed through its life with "
@@ -496,8 +503,8 @@ class C04(fw.Property):
             "expiry by advance / split advance / single timer firings, copies at the boundary; random = event soup over small pools of mids, tokens, peers; "
             "adversarial = the same with pings, responses, ACK/RST-typed requests, reserved codes and token reuse colliding with live mids; "
             "refusal = scenario scripts with the transport refusing datagrams to single peers from inside send() and asynchronous transport errors "
-            "(MessageManager.dispatch_error) at random places; burst = 10/50/200 copies in a row at one stage; cached (oracle only, no model term) = a "
-            "resource returning one response object for every request (open finding). Per 20 cases: 8 scenario, 3 lifetime, 3 random, 2 adversarial, "
+            "(MessageManager.dispatch_error) at random places; burst = 10/50/200 copies in a row at one stage; cached = a "
+            "resource returning one response object for every request (defect fixed in 75465d6). Per 20 cases: 8 scenario, 3 lifetime, 3 random, 2 adversarial, "
             "3 refusal, 1 burst / cached / race (race, oracle only: original and copies dispatched in one loop turn before the handler task starts). "
             "thorough adds enum = every script of length <= 3 over 7 symbols and of length 4 over 5 symbols (1024 scripts) on one key. "
             "Non-trivial = at least one copy of a CON request was re-answered and at least one request reached the site; distinct by full script.")
@@ -510,8 +517,8 @@ class C04(fw.Property):
                    "implementation only (oracle-only stream 'race')",
                    "'sent' = handed to message_interface.send; a refusing transport reports from inside send() (udp6 pattern) or later through "
                    "dispatch_error, both modelled; a send() that raises (unencodable response: open finding of C09) is not",
-                   "handlers build a fresh Message per request in every modelled stream; the reuse of one response object is the oracle-only "
-                   "stream 'cached' (open finding, fixes/C04-stored-reply-snapshot.diff)",
+                   "a response object reused by the handler is modelled (stream 'cached') for CON requests answered at once by a piggy-backed ACK; "
+                   "its reuse for NON requests or separate responses (the library leaves mtype/mid of the previous use on it) is outside this property",
                    "source endpoint equality is EndpointAddress.__eq__/__hash__ of the stub simnet.Addr (a new object per datagram)",
                    "timers fire at their due time in (due, creation) order (ideal loop); real-loop jitter is not modelled",
                    "default TransportTuning (EXCHANGE_LIFETIME 247 s, EMPTY_ACK_DELAY 0.1 s, MAX_RETRANSMIT 4) on incoming messages"]
@@ -550,7 +557,7 @@ class C04(fw.Property):
         return run_impl(inp)
 
     def model(self, stream, inp):
-        if stream in ("cached", "race"): return None   # object identity of the response / several datagrams per loop turn are not modelled: oracle only
+        if stream == "race": return None   # several datagrams per loop turn are not modelled: oracle only
         return "observe (init %s %s) %s" % (gz(inp["mid0"]), gz(inp["uniform"]), glist([g_event(e) for e in inp["events"]]))
 
     def decode(self, stream, inp, parsed):
